@@ -546,7 +546,8 @@ int main(int argc, char *argv[])
   }
     else
   {
-    util_context.set_cpu_by_name(cpu_name);
+    // Without a -<cpu> option the default CPU (MSP430) stays selected.
+    if (cpu_name != NULL) { util_context.set_cpu_by_name(cpu_name); }
   }
 
 #if 0
